@@ -1,6 +1,7 @@
 import FluteModel.Lemmas.SessionBuild
 import FluteModel.Lemmas.SessionCodec
 import FluteModel.Lemmas.SessionBencTie
+import FluteModel.Lemmas.SessionCache
 /-
   C02 — loss recovery: any loss / duplication pattern (order preserved) that leaves an FDT instance
   listing the object and decodable symbols of every source block still delivers the object.
@@ -61,6 +62,34 @@ theorem recoverable_delivers_stream (cF cO : Codec) (rc : RxCfg) (s : SessCfg) (
     exact closeLast_of_CL _ (closeLast_applyMults o stream mults hlast)
   · exact hdec
   · exact hsome
+
+
+/-- **C02 for the receiver as configured** (packet-cache limit = block limit = `object_max_cache_size`,
+    the configuration the driver runs).  `recoverable_delivers_stream` with the resource hypothesis stated in
+    bytes (`FitsBytes`): at most 4096 blocks, the bytes accounted for all blocks of the object within
+    `object_max_cache_size`, and - FDT-only OTI - the datagrams of the object's packets that arrive below the
+    packet-cache limit.  Beyond that bound the code does lose recoverable receptions: finding e2e-1
+    (`object_larger_than_cache_before_fdt_loses`). -/
+theorem recoverable_delivers_real (cF cO : Codec) (rc : RxCfg) (s : SessCfg) (o : ObjCfg)
+    (hto : o.toi ≠ 0) (hN : o.ks.isEmpty = false)
+    (hall : ∀ f, f ∈ s.fdts → f.files.contains o.toi = true)
+    (f : FdtCfg) (hfind : s.fdts.find? (fun x => x.id == f.id) = some f)
+    (hfN : f.ks.isEmpty = false) (hflook : f.ks.size ≤ rc.maxLook)
+    (hfresh : blockDone cF.canDecode f.ks s.fdtP [] 0 = false)
+    (stream : List Pkt) (mults : List Nat) (ps1 ps2 : List Pkt)
+    (hfit : FitsBytes rc o (applyMults stream mults))
+    (hrecv : applyMults stream mults = ps1 ++ ps2)
+    (hgenF : ∀ p, p ∈ stream → p.toi = 0 → p.fdtId = f.id → Genuine (fdtObj s f) (toSym p) ∧ p.close = false)
+    (hgenO : ∀ q, q ∈ osyms o stream → Genuine o q)
+    (hlast : OnlyLast (osyms o stream))
+    (hwhole : AllDec cF (fdtObj s f) (fsyms f.id ps1))
+    (hnoclose : ∀ q, q ∈ osyms o ps1 → q.close = false)
+    (hdec : AllDec cO o (osyms o (ps1 ++ ps2)))
+    (hsome : osyms o (ps1 ++ ps2) ≠ []) :
+    1 ≤ (observe cF.canDecode cO.canDecode rc s o (applyMults stream mults)).completes := by
+  rw [observe_unl cF.canDecode cO.canDecode rc s o hto _ hfit.2.2]
+  exact recoverable_delivers_stream cF cO (unl rc) s o hto hN (fits_unl rc o _ hfit) hall f hfind hfN hflook hfresh
+    stream mults ps1 ps2 hrecv hgenF hgenO hlast hwhole hnoclose hdec hsome
 
 /-- **C02 (receiver side, full strength over reception histories).**
     For EVERY decoder satisfying the contract `Codec`, every receiver configuration whose resource
@@ -296,6 +325,33 @@ theorem fdt_after_close_loses :
   have : b = 0 := by simp [wObj] at hb; omega
   subst this
   exact ⟨2, by decide, by decide⟩
+
+/-- four blocks of two No-Code symbols, 8 bytes each; datagrams of 36 bytes -/
+def bigObj (inband : Bool) : ObjCfg :=
+  { toi := 1, scheme := .nocode, ks := #[2, 2, 2, 2], blen := #[8, 8, 8, 8], p := 0, inbandFti := inband, transfers := 1,
+    carousel := false, noCache := false, pktLen := 36, lastPktLen := 36 }
+/-- `object_max_cache_size` = 16 bytes = two blocks (block limit and packet cache) -/
+def smallRc : RxCfg := { receiveOnce := true, maxSize := 16, pktCap := some 16 }
+/-- every packet of the object in order; the FDT instance (a carousel copy, the first copy was lost) arrives
+    after the first packet of block 2; the last packet carries the close-object flag -/
+def bigLate : List Ev :=
+  [.pkt ⟨0, 0, false⟩, .pkt ⟨0, 1, false⟩, .pkt ⟨1, 0, false⟩, .pkt ⟨1, 1, false⟩, .pkt ⟨2, 0, false⟩, .fdt true,
+   .pkt ⟨2, 1, false⟩, .pkt ⟨3, 0, false⟩, .pkt ⟨3, 1, true⟩]
+
+/-- **Negation witness of the resource hypothesis (finding e2e-1, `C02:object-larger-than-cache-before-fdt`).**
+    Every symbol of the object and an FDT instance listing it are received, order preserved, the FDT before
+    the close-object packet - nothing is delivered, because the object (32 bytes) is larger than
+    `object_max_cache_size` (16) and has to be held without a writer until the FDT arrives: in-band FTI the
+    third block cannot be allocated, FDT-only OTI the packet cache is full; the object is dropped, re-created
+    without what it held, and interrupted by its close-object packet.  With a cache that holds the object
+    (`FitsBytes`) the same reception delivers it.  Replayed on the real receiver at this scale and at the
+    default 10 MiB with a 21 MB object (engine e2e, generator group (f)). -/
+theorem object_larger_than_cache_before_fdt_loses :
+    (runObj (canDecodeOf .nocode) smallRc (bigObj true) {} bigLate).completes = 0 ∧
+    (runObj (canDecodeOf .nocode) smallRc (bigObj false) {} bigLate).completes = 0 ∧
+    (runObj (canDecodeOf .nocode) { smallRc with maxSize := 32 } (bigObj true) {} bigLate).completes = 1 ∧
+    (runObj (canDecodeOf .nocode) { smallRc with maxSize := 32, pktCap := some 400 } (bigObj false) {} bigLate).completes = 1 := by
+  decide
 
 /-- non-vacuity of `recoverable_delivers`: a reception with a lost packet meets its hypotheses
     (and the model indeed completes the object once) -/
